@@ -448,7 +448,7 @@ func (s *storage) createArchetype(node *node) *archetype {
 func (s *storage) createTable(archetype *archetype, relations []relationID) *table {
 	targets := make([]Entity, len(archetype.components))
 
-	if uint8(len(relations)) < archetype.numRelations {
+	if uint16(len(relations)) < archetype.numRelations {
 		panic("relation targets must be fully specified")
 	}
 	if len(relations) > 1 && !archetype.coversAllRelations(relations) {
